@@ -179,17 +179,17 @@ func schemaOf(t reflect.Type) *msgSchema {
 // tree
 
 type pnode struct {
-	Num  int
-	WT   int
-	V    uint64   // varint / fixed
-	B    []byte   // bytes payload (when Kids == nil and Packed == nil)
-	Kids []*pnode // parsed sub-message
+	Num   int
+	WT    int
+	V     uint64   // varint / fixed
+	B     []byte   // bytes payload (when Kids == nil and Packed == nil)
+	Kids  []*pnode // parsed sub-message
 	IsMsg bool
-	Pk   []uint64 // packed varints
-	IsPk bool
-	F    *fieldInfo
-	Off  int // offset of the field's tag in the original encoding of the enclosing buffer (absolute)
-	End  int
+	Pk    []uint64 // packed varints
+	IsPk  bool
+	F     *fieldInfo
+	Off   int // offset of the field's tag in the original encoding of the enclosing buffer (absolute)
+	End   int
 }
 
 func appendVarint(b []byte, v uint64) []byte {
@@ -330,6 +330,7 @@ type site struct {
 	Idx   int    // index of the (first) node with that field number in the enclosing list, -1 if absent
 	Name  string // dotted field path, e.g. "BlockPart.part.proof.total"
 	Depth int
+	InBA  bool // the field belongs to a BitArray message (bits / elems)
 }
 
 func collectSites(ns []*pnode, s *msgSchema, path []int, prefix string, out *[]site) {
@@ -346,7 +347,7 @@ func collectSites(ns []*pnode, s *msgSchema, path []int, prefix string, out *[]s
 			}
 		}
 		name := prefix + f.Name
-		*out = append(*out, site{Path: append([]int(nil), path...), F: f, Idx: idx, Name: name, Depth: len(path)})
+		*out = append(*out, site{Path: append([]int(nil), path...), F: f, Idx: idx, Name: name, Depth: len(path), InBA: s.Name == "BitArray"})
 		if f.Kind == kMsg {
 			// descend into every present instance (repeated fields: the first two instances)
 			seen := 0
@@ -375,8 +376,8 @@ func sitesOf(ns []*pnode, s *msgSchema, rootName string) []site {
 }
 
 type mutation struct {
-	Class string // coarse class used in signatures
-	Desc  string // exact description
+	Class string                                // coarse class used in signatures
+	Desc  string                                // exact description
 	Apply func(list []*pnode, st site) []*pnode // returns the new enclosing list
 }
 
@@ -499,25 +500,49 @@ func bitCombos(short bool) []bitsCombo {
 	return out
 }
 
+// bitsClass: a bit array is consistent when it has exactly ceil(bits/64) element words.
 func bitsClass(c bitsCombo) string {
-	need := (c.bits + 63) / 64
 	switch {
-	case c.bits >= 1<<31:
-		if c.bits >= 1<<63 {
-			return "bitarray:negative-bits"
-		}
-		return "bitarray:huge-bits"
 	case c.bits == 0 && c.elems == 0:
 		return "bitarray:empty"
-	case c.bits == 0:
-		return "bitarray:zero-bits-with-elems"
-	case uint64(c.elems) < need:
-		return "bitarray:bits>elems"
-	case uint64(c.elems) > need:
-		return "bitarray:bits<elems"
-	default:
+	case c.bits < 1<<62 && (c.bits+63)/64 == uint64(c.elems):
 		return "bitarray:consistent"
+	default:
+		return "bitarray:bits/elems-inconsistent"
 	}
+}
+
+// mutate applies m at st and returns the encoding plus the (field, class) used in signatures. A
+// mutation of the bits or elems field of a bit array is named after the array and classified by the
+// consistency of the resulting array, so that one defect does not fan out over many signatures.
+func mutate(root []*pnode, st site, m mutation) (raw []byte, field, class string) {
+	r2 := applyAt(root, st, m)
+	raw = encodeNodes(r2)
+	field, class = stripIdx(st.Name), m.Class
+	if st.InBA && len(st.Path) > 0 {
+		if i := strings.LastIndex(field, "."); i > 0 {
+			field = field[:i]
+		}
+		var bits uint64
+		elems := 0
+		ok := true
+		for _, n := range listAt(r2, st.Path) {
+			switch {
+			case n.Num == 1 && n.WT == wtVarint:
+				bits = n.V
+			case n.Num == 2 && n.IsPk:
+				elems += len(n.Pk)
+			default:
+				ok = false
+			}
+		}
+		if ok {
+			class = bitsClass(bitsCombo{bits, elems})
+		} else {
+			class = "bitarray:malformed"
+		}
+	}
+	return raw, field, class
 }
 
 // mutationsFor lists the single-field mutations of a site. short selects the reduced value sets (used
